@@ -82,3 +82,9 @@ Print Assumptions c01_first_rep_splits_orbits.
 
 Theorem c01_row_minimum_keeps_them_together : same_pointer (witness_writes RepRowMin) witness_e1 witness_e2 = true.
 Proof. exact rowmin_same_pointer. Qed.
+
+(** Hand-modelled code this property's model and correspondences were written against is unchanged (the combination tables and index helpers):
+    whole-function match against the recorded source, regenerated on every run. *)
+From SymfcG Require Import ShapesCombos.
+Theorem c01_recorded_sources_in_force : ShapesCombos_as_recorded = true.
+Proof. repeat split; reflexivity. Qed.
